@@ -349,6 +349,11 @@ pub struct StreamScenario {
     /// Use the infallible constructor `stream_find_iter` (panics on
     /// unsupported configurations) instead of `try_stream_find_iter`.
     pub infallible_ctor: bool,
+    /// How a stream *find* iterator is consumed: 0 `next()` loop, 1 `for_each`, 2 `nth(0)` loop,
+    /// 3 `next()` loop plus a second fault-free pass through `count()` and one through `last()`
+    /// (a library may legally specialise any `Iterator` method; all must describe the same sequence).
+    #[serde(default)]
+    pub drive: u8,
 }
 
 impl StreamScenario {
